@@ -112,6 +112,18 @@ class RenamedDirected(DirectedEdge):
         super().__init__(src, dst, uid=uid, attributes=attributes)
 
 
+class FrozenEdge(DirectedEdge):
+    """A directed edge type whose ends cannot be re-pointed: read-only v1 / v2."""
+
+    @property
+    def v1(self):
+        return self.vertices[0]
+
+    @property
+    def v2(self):
+        return self.vertices[1]
+
+
 class _FalsyMeta(type):
     """Classes made with this metaclass are falsy (e.g. len(cls) counts something)."""
 
@@ -163,6 +175,7 @@ EDGE_CLASSES = {
     "OtherTwoEnded": OtherTwoEnded,
     "RenamedDirected": RenamedDirected,
     "FalsyClassEdge": FalsyClassEdge,
+    "FrozenEdge": FrozenEdge,
 }
 ALL_CLASSES = dict(VERTEX_CLASSES)
 ALL_CLASSES.update(UNIVERSE_CLASSES)
